@@ -55,9 +55,9 @@ PROP = {
                 "quick": {"cases": 80, "concurrent_connects": 900, "concurrent_client_ops": 1300,
                           "oracle_conf_sound_evals": 300, "oracle_spend_sound_evals": 450,
                           "oracle_conf_complete_evals": 2400, "oracle_hint_evals": 4500},
-                "thorough": {"cases": 2000, "concurrent_connects": 22000, "concurrent_client_ops": 32000,
-                             "oracle_conf_sound_evals": 7500, "oracle_spend_sound_evals": 11000,
-                             "oracle_conf_complete_evals": 60000, "oracle_hint_evals": 110000},
+                "thorough": {"cases": 6000, "concurrent_connects": 66000, "concurrent_client_ops": 96000,
+                             "oracle_conf_sound_evals": 22000, "oracle_spend_sound_evals": 33000,
+                             "oracle_conf_complete_evals": 180000, "oracle_hint_evals": 330000},
             },
         },
     ],
